@@ -142,6 +142,19 @@ func mutantsOf(name string, data []byte, r *hx.Rng, budget int, emit func(mutant
 				}
 			}
 		}
+		// type confusion: the same bytes under every other registered box type
+		if b.size <= 1<<16 {
+			for _, nn := range registeredNames() {
+				nn := nn
+				if nn != b.name {
+					add(fmt.Sprintf("rename(%s@%d)=%x", b.name, b.off, nn), func() []byte {
+						c := append([]byte(nil), data...)
+						copy(c[b.off+4:b.off+8], nn)
+						return c
+					})
+				}
+			}
+		}
 		// removal / duplication with the ancestors' sizes kept consistent
 		add(fmt.Sprintf("remove(%s@%d)", b.name, b.off), func() []byte {
 			c := append([]byte(nil), data[:b.off]...)
@@ -259,6 +272,16 @@ func boxPipeline(data []byte) string {
 		res = append(res, "e0="+w+","+cls(p, over, err))
 	}
 	return strings.Join(res, "|")
+}
+
+var regNames []string
+
+// registeredNames: the box types of the decoder tables (through the C03 hook)
+func registeredNames() []string {
+	if regNames == nil {
+		regNames, _ = mp4.VerifDecoderKeys()
+	}
+	return regNames
 }
 
 func testdataFiles() []string {
